@@ -126,6 +126,8 @@ def _plan(a):
     else:
         runs.append(("strategy", "de/MC_Strategy", "MC_Strategy_q6.cfg", {}, None))
     runs.append(("strategy-gen", "de/MC_Strategy", "MC_Strategy_gen.cfg", {}, None))
+    # the falsy settings CrossProbability=0 and ScalingFactor=0 handed to Step as keywords
+    runs.append(("strategy-gen", "de/MC_Strategy", "MC_Strategy_gen0.cfg", {}, None))
     for w in ("AsIsAtLeastOneMutated", "PubBinNeverScattered", "NeverFullRun"):
         runs.append(("witness", "de/MC_Strategy", "MC_Strategy_wit_%s.cfg" % w, {}, w))
     runs.append(("strategy-mc", "de/MC_Strategy", "MC_Strategy_asis_runs.cfg", {}, None))
